@@ -354,8 +354,13 @@ class Session:
 
         self.compression_method = record.binary[index + 2]
 
-        extensions_length = int.from_bytes(record.binary[index + 3: index + 5], 'big')
-        extensions_bin = record.binary[index + 5: index + 5 + extensions_length]
+        # the extensions field is optional and ends with the ServerHello message, not with the record
+        message_end = 4 + int.from_bytes(record.binary[1:4], 'big')
+        extensions_length = 0
+        extensions_bin = b''
+        if index + 5 <= message_end:
+            extensions_length = int.from_bytes(record.binary[index + 3: index + 5], 'big')
+            extensions_bin = record.binary[index + 5: min(index + 5 + extensions_length, message_end)]
 
         self.extensions = {}
 
